@@ -153,6 +153,24 @@ theorem nested_ignores_params (req : LinkReq) (hnested : req.dst.length ≠ 2) :
   simp only [defaultLinking, defaultCandidates, h2, fieldSources]
   simp [List.find?_map, Function.comp_def, Source.fieldId]
 
+/-- **…and only there.**  With both a (rightmost) extra parameter `p` and a
+    source field named like the destination field, the default linking picks the
+    parameter exactly when the field belongs to the top-level destination model
+    (destination stack of length 2), and the source field at every other depth. -/
+theorem param_over_field_top_level_only (req : LinkReq) (before after : List CtxParam) (p : CtxParam)
+    (hparams : req.params = before ++ p :: after)
+    (hname : p.name = req.targetId) (hright : ∀ q ∈ after, q.name ≠ req.targetId)
+    (f : OutField) (hf : req.sources.find? (fun f => f.id == req.targetId) = some f) :
+    defaultLinking req =
+      if req.dst.length = 2 then some (.field (.param before.length p) none)
+      else some (.field (.field f) none) := by
+  by_cases htop : req.dst.length = 2
+  · simp only [htop, if_true]
+    exact param_over_field_top_level req before after p hparams htop hname hright
+  · simp only [htop, if_false]
+    rw [nested_ignores_params req htop, hf]
+    rfl
+
 /-- top level without a same-named extra parameter: the same-named source field -/
 theorem field_when_no_param (req : LinkReq) (hno : ∀ q ∈ req.params, q.name ≠ req.targetId) :
     defaultLinking req =
